@@ -546,3 +546,67 @@ Theorem C19_undirected_refine_any_order : forall (ids idr : str -> N) (net : lis
   complex_graph_nodes (as_bipartite_undirected (RG (rg_nodes (raw_export ids idr net iso)) E)) = Some (complex_graph net iso).
 Proof. exact undirected_refine_perm. Qed.
 Print Assumptions C19_undirected_refine_any_order.
+
+(* ====================================================================================================================
+   Relations between the answers (they hold for every network, so no two reported values can contradict each other)
+   ==================================================================================================================== *)
+
+(** (36) weak reversibility implies the coarse regularity (every strongly connected class has exactly one terminal strongly
+         connected component); hence check_deficiency_zero true implies regular.  (The converse fails: A -> B.) *)
+Theorem C19_weak_rev_regular : forall (net : list rxn) (iso : list str) (r : nat),
+  let arcs := snd (complex_graph net iso) in
+  let k := length (fst (complex_graph net iso)) in
+  (weakly_rev (compute_summary net iso r) = true -> regular arcs k = true) /\
+  (check_deficiency_zero (compute_summary net iso r) = true -> regular arcs k = true).
+Proof. exact net_weak_rev_regular. Qed.
+Print Assumptions C19_weak_rev_regular.
+
+(** (37) bounds of every summary (network with at least one reaction): 1 <= linkage classes <= complexes <= 2 * reactions, and
+         the complex graph has at most one arc per reaction. *)
+Theorem C19_summary_bounds : forall (net : list rxn) (iso : list str) (r : nat), net <> [] ->
+  let s := compute_summary net iso r in
+  1 <= n_linkage s /\ n_linkage s <= n_complexes s /\ n_complexes s <= 2 * n_reactions s /\
+  length (snd (complex_graph net iso)) <= n_reactions s.
+Proof. exact summary_bounds. Qed.
+Print Assumptions C19_summary_bounds.
+
+(** (38) the two deficiency-one front ends: when check_deficiency_one passes, hypotheses_satisfied is exactly the regularity flag. *)
+Theorem C19_check_one_hypotheses : forall (s : summary) (ld : list Z) (reg : bool),
+  check_deficiency_one s ld = true -> deficiency_one_hypotheses s ld reg = reg.
+Proof. exact check_one_hypotheses. Qed.
+Print Assumptions C19_check_one_hypotheses.
+
+(** (39) multigraph inputs: parallel arcs add up — a multiset written with a coefficient, as one arc per molecule, or in any
+         batches is the same multiset: for ANY attributed graph, splitting an arc of coefficient c1 + c2 into two parallel arcs
+         c1, c2 (same ends, same role) changes no vector and not the complex graph.  (A conversion that keeps only one of several
+         parallel arcs — seeded change C19 wave 4 no. 1 — breaks exactly this.) *)
+Theorem C19_parallel_arcs_add : forall (ns : list rnode) (pre post : list rarc) (u v : N) (role : option role) (c1 c2 : Z),
+  let A := pre ++ RArc u v role (Some (c1 + c2)%Z) :: post in
+  let A' := pre ++ RArc u v role (Some c1) :: RArc u v role (Some c2) :: post in
+  (forall ro r, node_vec (RG ns A') ro r = node_vec (RG ns A) ro r) /\
+  complex_graph_nodes (RG ns A') = complex_graph_nodes (RG ns A).
+Proof. exact parallel_arcs_add. Qed.
+Print Assumptions C19_parallel_arcs_add.
+
+(** (40) frame: which stored groups a public call may write.  compute_linkage_deficiencies writes the class deficiencies only;
+         nondegeneracy_test writes its own record only — in particular it leaves the stored complexes and complex graph alone (a
+         nondegeneracy_test that reorders the stored complex list, seeded change C19 wave 4 no. 2, breaks exactly this); the three
+         checks write nothing; run_deficiency_one_algorithm on an object with a summary keeps the summary, the nondegeneracy
+         record, and class deficiencies that were already stored. *)
+Theorem C19_api_frame : forall (o : opts) (c : call) (st : ast),
+  let st' := fst (apply_op o c st) in
+  (c_op c = OLinkage -> s_sum st' = s_sum st /\ s_one st' = s_one st /\ s_nd st' = s_nd st) /\
+  (c_op c = ONondeg -> s_sum st' = s_sum st /\ s_ld st' = s_ld st /\ s_one st' = s_one st) /\
+  (c_op c = OCheck0 \/ c_op c = OCheck1 \/ c_op c = OReg -> st' = st) /\
+  (c_op c = OOne -> s_sum st <> None ->
+     s_nd st' = s_nd st /\ s_sum st' = s_sum st /\ (s_ld st <> None -> s_ld st' = s_ld st)).
+Proof. exact api_frame. Qed.
+Print Assumptions C19_api_frame.
+
+(** (41) the two state machines are one: the three routes of the staged machine of (15) (evaluated for the history populations)
+         are the call scripts [compute_crn_deficiency] / [compute_summary; compute_linkage_deficiencies;
+         run_deficiency_one_algorithm] / [compute_summary; run_deficiency_one_algorithm] of the API machine, from any state. *)
+Theorem C19_routes_are_scripts : forall (style : nat) (x : hist_step) (st : ast), hs_net x <> [] ->
+  to_old (run_calls default_opts (script_of style x) st) = route style x (to_old st).
+Proof. exact routes_are_scripts. Qed.
+Print Assumptions C19_routes_are_scripts.
